@@ -76,6 +76,7 @@ class Ctx:
         self.notes = []
         self.rules_doc = {}
         self.analysed = {"functions": set(), "call_sites": 0, "blocks": 0}
+        self.vouched = set()   # (cfg, path) read by a rule that determines what the body computes
         self.generic_visits = set()   # (cfg, path) read by the generic normal-form rules (SA-SUMMARY / SA-PATHSUM) only
         self.deferred = []   # (rule, key, why, loc, cfg, (cfg, path)): verdicts that depend on whether some other rule reads the body
 
@@ -88,9 +89,13 @@ class Ctx:
     def progs(self, cfgs):
         return facts.load_many(cfgs)
 
-    def visit(self, f):
-        """record a function body as analysed"""
+    def visit(self, f, weak=False):
+        """record a function body as analysed.  weak=True: the rule looks at one aspect of the body only (its panic edges, its casts,
+        its stores on error paths, the tails it writes ...) and does not vouch for what the body computes - the generic normal-form
+        rules still compare such a body, and a change of its form is still theirs to report"""
         k = (f.prog.cfg, f.path)
+        if not weak:
+            self.vouched.add(k)
         if k not in self.analysed["functions"]:
             self.analysed["functions"].add(k)
             self.analysed["blocks"] += len(f.live)
@@ -126,7 +131,7 @@ class Ctx:
     # -- finish ----------------------------------------------------------------
     def finish(self, explanation, assumptions, level="other"):
         for rule, key, why, loc, cfg, fk in self.deferred:
-            read = fk in self.analysed["functions"]
+            read = fk in self.vouched
             elsewhere = (not read) and fk[1] in _dedicated_elsewhere()
             self.ob(rule, key, read or elsewhere,
                     ("the body changed form and is read by a dedicated rule of this check" if read else
@@ -206,7 +211,7 @@ class Ctx:
                 "configurations": facts.BUILD_LOG,
                 "functions_analysed": len(self.analysed["functions"]),
                 "function_paths_analysed": sorted(set(p for (_c, p) in self.analysed["functions"])),
-                "function_paths_read_by_dedicated_rules": sorted(set(p for (c_, p) in self.analysed["functions"] if (c_, p) not in self.generic_visits)),
+                "function_paths_read_by_dedicated_rules": sorted(set(p for (c_, p) in self.vouched if (c_, p) not in self.generic_visits)),
                 "blocks_analysed": self.analysed["blocks"],
                 "call_sites_analysed": self.analysed["call_sites"],
                 "known_findings": [{"key": o.full_key(), "what": w} for o, w in kf],
